@@ -20,9 +20,37 @@ import (
 // c16RunH3 runs the real requestWriter.writeHeaders into a buffer, checks the HEADERS frame
 // envelope and decodes the payload with the reference QPACK decoder (arrival order).
 func c16RunH3(w *requestWriter, tc *verifh.C01FieldCase) (fields [][2]string, err error, perr string) {
+	fields, _, err, perr = c16RunH3Again(w, tc, false)
+	return
+}
+
+// c16DecodeH3 checks the HEADERS frame envelope and decodes the payload (reference QPACK decoder).
+func c16DecodeH3(b []byte) (fields [][2]string, perr string) {
+	typ, n1, e1 := quicvarint.Parse(b)
+	if e1 != nil || typ != 0x1 {
+		return nil, fmt.Sprintf("not a HEADERS frame: type %d err %v", typ, e1)
+	}
+	length, n2, e2 := quicvarint.Parse(b[n1:])
+	if e2 != nil || int(length) != len(b)-n1-n2 {
+		return nil, fmt.Sprintf("HEADERS frame length %d, payload %d", length, len(b)-n1-n2)
+	}
+	hf, derr := qpack.NewDecoder(nil).DecodeFull(b[n1+n2:])
+	if derr != nil {
+		return nil, "reference QPACK decoder rejects the block: " + derr.Error()
+	}
+	for _, f := range hf {
+		fields = append(fields, [2]string{f.Name, f.Value})
+	}
+	return fields, ""
+}
+
+// c16RunH3Again: as c16RunH3; with again=true the SAME *http.Request is written a second time (a
+// request re-sent on a new connection after the idle timeout / a closed connection) and the second
+// field list is returned too. The request's header map must be left as it was after every write.
+func c16RunH3Again(w *requestWriter, tc *verifh.C01FieldCase, again bool) (fields, fields2 [][2]string, err error, perr string) {
 	u, e := url.Parse(tc.RawURL)
 	if e != nil {
-		return nil, e, "bad-url"
+		return nil, nil, e, "bad-url"
 	}
 	req := &http.Request{Method: tc.Method, URL: u, Host: tc.Host, Header: tc.Header.Clone(), Proto: "HTTP/1.1", ProtoMajor: 1, ProtoMinor: 1, ContentLength: tc.CL}
 	if tc.HasBody {
@@ -37,28 +65,37 @@ func c16RunH3(w *requestWriter, tc *verifh.C01FieldCase) (fields [][2]string, er
 		err = w.writeHeaders(&buf, req, tc.Gzip, nil)
 	})
 	if bad {
-		return nil, nil, p
+		return nil, nil, nil, p
+	}
+	if !verifh.C16SameHeader(req.Header, tc.Header) {
+		return nil, nil, nil, fmt.Sprintf("writeHeaders changed the request's header map: %q -> %q", tc.Header, req.Header)
 	}
 	if err != nil {
-		return nil, err, ""
+		return nil, nil, err, ""
 	}
-	b := buf.Bytes()
-	typ, n1, e1 := quicvarint.Parse(b)
-	if e1 != nil || typ != 0x1 {
-		return nil, nil, fmt.Sprintf("not a HEADERS frame: type %d err %v", typ, e1)
+	if fields, perr = c16DecodeH3(buf.Bytes()); perr != "" {
+		return nil, nil, nil, perr
 	}
-	length, n2, e2 := quicvarint.Parse(b[n1:])
-	if e2 != nil || int(length) != len(b)-n1-n2 {
-		return nil, nil, fmt.Sprintf("HEADERS frame length %d, payload %d", length, len(b)-n1-n2)
+	if again {
+		var buf2 bytes.Buffer
+		var err2 error
+		p, bad := verifh.Safely(func() {
+			err2 = w.writeHeaders(&buf2, req, tc.Gzip, nil)
+		})
+		if bad {
+			return nil, nil, nil, p
+		}
+		if err2 != nil {
+			return nil, nil, nil, "second write of the same request refused: " + err2.Error()
+		}
+		if fields2, perr = c16DecodeH3(buf2.Bytes()); perr != "" {
+			return nil, nil, nil, "second write: " + perr
+		}
+		if !verifh.C16SameHeader(req.Header, tc.Header) {
+			return nil, nil, nil, fmt.Sprintf("the second writeHeaders changed the request's header map: %q -> %q", tc.Header, req.Header)
+		}
 	}
-	hf, derr := qpack.NewDecoder(nil).DecodeFull(b[n1+n2:])
-	if derr != nil {
-		return nil, nil, "reference QPACK decoder rejects the block: " + derr.Error()
-	}
-	for _, f := range hf {
-		fields = append(fields, [2]string{f.Name, f.Value})
-	}
-	return fields, nil, ""
+	return fields, fields2, nil, ""
 }
 
 func c16H3ErrKind(err error) string {
@@ -96,8 +133,10 @@ func c16LaneH3(t *testing.T, s *verifh.Session, profile string, n int, need map[
 			tc = verifh.C01GenFieldCase(r, profile)
 		}
 		tc.Limit = 0
+		nb := verifh.C16Neighbourise(r, tc)
 		prev = tc
-		fields, err, perr := c16RunH3(w, tc)
+		again := r.Intn(4) == 0
+		fields, fields2, err, perr := c16RunH3Again(w, tc, again)
 		human := fmt.Sprintf("h3 %q %q host=%q hdr=%q cl=%d body=%v/%v gzip=%v", tc.Method, tc.RawURL, tc.Host, tc.Header, tc.CL, tc.HasBody, tc.NoBody, tc.Gzip)
 		if perr != "" {
 			s.Crash(human, human, perr, "")
@@ -130,6 +169,18 @@ func c16LaneH3(t *testing.T, s *verifh.Session, profile string, n int, need map[
 		key := strings.SplitN(ans, " ", 2)[0]
 		s.Count(key)
 		need[key]++
+		if key == "ok" && len(nb) > 0 {
+			s.Count("bookkeeping-neighbour-names")
+			need["bookkeeping-neighbour-names"]++
+		}
+		if key == "ok" && again {
+			s.Count("written-twice")
+			need["written-twice"]++
+			ans2 := verifh.C01ShowFields(fields2, tc.Header[verifh.C01HeaderOrderKey])
+			good2, why2 := verifh.C01FieldOracle("h3", tc, fields2)
+			s.Observe(fmt.Sprintf("h3-again-%d", i), ans2 == ans && good2, class, false, human,
+				fmt.Sprintf("second write of the same *http.Request differs from the first: first %s second %s %s", ans, ans2, why2))
+		}
 		if len(tc.Header[verifh.C01HeaderOrderKey]) > 0 && err == nil {
 			s.Count("header-order")
 			need["header-order"]++
@@ -150,7 +201,7 @@ func TestVerif_C16_h3fields(t *testing.T) {
 	need := map[string]int{}
 	c16LaneH3(t, s, "order", verifh.N(4000, 80000), need)
 	c16LaneH3(t, s, "plain", verifh.N(1500, 30000), need)
-	for _, b := range []string{"ok", "err:host", "err:header", "header-order", "pseudo-order"} {
+	for _, b := range []string{"ok", "err:host", "err:header", "header-order", "pseudo-order", "bookkeeping-neighbour-names", "written-twice"} {
 		if need[b] == 0 {
 			t.Errorf("lane did not reach bucket %q", b)
 		}
